@@ -767,6 +767,50 @@ func c05Closes(c *core.Ctx, ls *core.LockSets, fns []*ssa.Function) []closeSite 
 						cs.flagField, cs.flagVal = flagF, "true"
 					}
 				}
+				// the same with a state enum for a flag: on the `state == open` (or `state != closed`) edge, and the
+				// state is given another constant (resp. that constant) afterwards
+				if !argB {
+					var openK, closedK *int64
+					flagF = ""
+					g := core.GuardedBy(in, func(f core.Fact) bool {
+						if f.Op != token.EQL && f.Op != token.NEQ {
+							return false
+						}
+						x, y := f.X, f.Y
+						if _, isC := core.ConstInt(x); isC {
+							x, y = y, x
+						}
+						k, isC := core.ConstInt(y)
+						base, ff, ok := core.FieldOf(x)
+						if !isC || !ok || core.NamedOf(base.Type()) != cs.typ {
+							return false
+						}
+						if _, isBool := x.Type().Underlying().(*types.Basic); !isBool || x.Type().Underlying().(*types.Basic).Info()&types.IsInteger == 0 {
+							return false
+						}
+						flagF = ff
+						kk := k
+						if f.Op == token.EQL {
+							openK = &kk
+						} else {
+							closedK = &kk
+						}
+						return true
+					})
+					if g && flagF != "" {
+						v := core.Walk(core.After(in), nil, nil)
+						for x := range v {
+							if st, ok := x.(*ssa.Store); ok {
+								if _, ff, ok := core.FieldOf(st.Addr); ok && ff == flagF {
+									if k, isI := core.ConstInt(st.Val); isI && ((openK != nil && k != *openK) || (closedK != nil && k == *closedK)) {
+										argB = true
+										cs.flagField, cs.flagVal = flagF, fmt.Sprint(k)
+									}
+								}
+							}
+						}
+					}
+				}
 			}
 			argC := false
 			if cs.field != "" && !inLoop {
